@@ -4,7 +4,8 @@
    Rejection of bad graphs: Model/Deps.v (_resolve_test_dependencies), Proofs/DepsP.v. *)
 From Coq Require Import List Arith Bool Relations.
 Import ListNotations.
-From LCC Require Import Base.Util Model.Proj Model.Sched Model.Graph Model.Fixture Model.Deps Proofs.SchedP Proofs.DepsP.
+From LCC Require Import Base.Util Model.Proj Model.Sched Model.Graph Model.Fixture Model.Deps Proofs.SchedP Proofs.DepsP
+     Proofs.GraphP Proofs.ShapeP.
 
 (* A test never starts before every test it depends on, directly or transitively, and its suite's setup task have
    finished (and been acknowledged by the main thread). *)
@@ -30,6 +31,20 @@ Theorem C04_skipped_otherwise : forall g sof s t deps1 d deps2 r,
   decide g sof s t JHandle = Skip (skip_reason_of r).
 Proof. exact skipped_if_a_dependency_did_not_succeed. Qed.
 Print Assumptions C04_skipped_otherwise.
+
+(* The edges are there for EVERY project (both passes of runner.build_tasks, Model/Graph.v): the task of a test that declares
+   depends_on d has the task of the test at path d among its on-success dependencies — so C04_order, C04_executed_only_if and
+   C04_skipped_otherwise apply to every declared dependency of every project. *)
+Theorem C04_edges_every_project : forall si force suites g i t,
+  build_tasks si force suites = Some g ->
+  nth_error (build_tasks_structural si force suites) i = Some t -> t_kind t = KTest ->
+  forall d, In d (deps_lookup (deps_table suites) (t_path t)) ->
+    exists j td, lookup_test_task (build_tasks_structural si force suites) d 0 = Some j /\
+                 In j (t_succ (get_task g i)) /\
+                 nth_error (build_tasks_structural si force suites) j = Some td /\ t_kind td = KTest /\ t_path td = d /\
+                 t_kind (get_task g j) = KTest /\ t_path (get_task g j) = d.
+Proof. exact depends_on_edges. Qed.
+Print Assumptions C04_edges_every_project.
 
 (* Bad graphs are rejected when the project is prepared, before any task exists: resolution fails with a ValidationError
    naming a real defect (unknown path, cycle of any length, dependency not scheduled) ... *)
